@@ -23,7 +23,7 @@ func init() {
 			"R4: the value fields of package atomic are touched only through sync/atomic (or atomic.Value methods); no method pairs an atomic load with a later atomic store of the same field. R5: all other fields of the function objects are written only by " +
 			"their constructor (listed exception: the payable handler, configuration time). Does NOT decide: linearizability of recorded histories as such, the race detector's dynamic view.",
 		Trusted: []string{"sync.RWMutex and sync/atomic semantics", "objects are published to other goroutines only after their constructor returned"},
-		Rules:   []func(*Ctx){c19r1, c19r3, c19r4, c19r5, c19r6},
+		Rules:   []func(*Ctx){c19r1, c19r3, c19r4, c19r5, c19r6, c19r7},
 	})
 }
 
@@ -856,4 +856,11 @@ func onlyBelowSetters(p *Prog, fn, ctor *ssa.Function, depth int) bool {
 // must allocate — the base has no spare capacity (C13-R2).
 func c19r6(c *Ctx) {
 	c.shareRule(c13r2, "C13-R2", "C19-R6", "shared append bases have no spare capacity (read-locked executions never write shared memory)", nil)
+}
+
+// c19r7: "each execution is charged wholly by one schedule": besides the locking (R2) this needs every repricing to hand the
+// functions one complete schedule — a freshly decoded, validated object, stored and broadcast as a whole (shared with
+// C16-R3). Decoding a new schedule into the live object mixes two schedules without any concurrency.
+func c19r7(c *Ctx) {
+	c.shareRule(c16r3, "C16-R3", "C19-R7", "a repricing hands every function one complete, freshly decoded schedule (no mixture of two schedules)", nil)
 }
